@@ -19,6 +19,7 @@ var commands = map[string]func([]string){
 	"isgen": cmdIsgen,
 	"c18":   cmdC18,
 	"c13":   cmdC13,
+	"c11":   cmdC11,
 }
 
 func main() {
